@@ -11,7 +11,7 @@ import (
 type Access struct {
 	Fn    *ssa.Function
 	Instr ssa.Instruction
-	Kind  string // "read", "write", "mapread", "mapwrite", "mapdelete", "addr" (address escapes), "call" (method call / invoke on the loaded value), "range"
+	Kind  string    // "read", "write", "mapread", "mapwrite", "mapdelete", "addr" (address escapes), "call" (method call / invoke on the loaded value), "range"
 	Base  ssa.Value // the struct pointer/value the field was selected from
 	FA    ssa.Value // the FieldAddr / Field value
 }
